@@ -17,6 +17,7 @@ import (
 	"os"
 	"runtime"
 	"strconv"
+	"strings"
 	"sync"
 	"sync/atomic"
 	"time"
@@ -132,7 +133,18 @@ type rcStep struct {
 	} `json:"obs"`
 }
 
-const rcTimeout = 5 * time.Second
+// how long a goroutine may take to reach its next hook before the behaviour counts as stuck; a stuck verdict is
+// confirmed by the orchestrator in a second, sequential run with VERIF_RC_TIMEOUT_MS = 60000 (a loaded machine
+// must not look like a deadlock)
+var rcTimeout = func() time.Duration {
+	if v := os.Getenv("VERIF_RC_TIMEOUT_MS"); v != "" {
+		var ms int
+		if _, err := fmt.Sscanf(v, "%d", &ms); err == nil && ms > 0 {
+			return time.Duration(ms) * time.Millisecond
+		}
+	}
+	return 5 * time.Second
+}()
 
 func (s *rcSession) awaitEvent(g int, points ...string) (rcEvent, error) {
 	t := time.NewTimer(rcTimeout)
@@ -173,6 +185,10 @@ func (s *rcSession) awaitResult(g int) (rcResult, error) {
 		return rcResult{}, fmt.Errorf("Get of g%d did not return within %v", g, rcTimeout)
 	}
 }
+
+var rcStuck atomic.Int64
+
+const maxRcStuck = 12
 
 // replayReqCache returns "" if the real cache follows the behaviour, else a description.
 func replayReqCache(steps []rcStep) string {
@@ -349,8 +365,15 @@ func init() {
 				return nil, err
 			}
 			var msg string
+			if rcStuck.Load() >= maxRcStuck {
+				// enough behaviours got stuck: the rest is not waited for (each costs the full timeout)
+				return map[string]any{"i": idx, "mismatch": "", "skipped": true}, nil
+			}
 			if p := Safely(func() { msg = replayReqCache(c.Steps) }); p != "" {
 				msg = "panic: " + p
+			}
+			if strings.Contains(msg, "(stuck)") || strings.Contains(msg, "did not return within") {
+				rcStuck.Add(1)
 			}
 			return map[string]any{"i": idx, "mismatch": msg}, nil
 		})
@@ -437,7 +460,16 @@ func rcTraceCmd(e *Env) error {
 				}
 			}
 		}()
-		wg.Wait()
+		// a run that does not finish is a verdict of its own (exit status 3), not something to wait for
+		finished := make(chan struct{})
+		go func() { wg.Wait(); close(finished) }()
+		select {
+		case <-finished:
+		case <-time.After(60 * time.Second):
+			fmt.Fprintf(os.Stderr, "STRESS-RUN-HUNG: run %d (seed %d, %d goroutines, %d keys) did not finish within 60 s\n", r, seed, ng, nk)
+			out.Close()
+			os.Exit(3)
+		}
 		final := s.cache.GetMap()
 		rcSessions.Delete(any(s.cache))
 		enc.Encode(map[string]any{"ev": "reset", "g": 0, "ng": ng, "run": r})
